@@ -39,7 +39,7 @@ def floors(tier):
 
 
 def shards(tier, seed):
-    per = {"quick": 1500, "thorough": 60000}[tier]
+    per = {"quick": 1500, "thorough": 22000}[tier]
     return [{"seed": seed * 1000 + i, "n": per} for i in range(16)]
 
 
